@@ -26,7 +26,7 @@ def ends_at_once(c, typ, ucap):
 def g_event_cmd(d, idx, sort, nev):
     nm = b"#" + d.pick([b"E", b"EV", b"a", b"Zq", b"evt_long_name"]) + b"%d" % idx
     if sort == "auto":
-        vs = [G.g_var(d, max_buf=5, callbacks=False, access=(RO, RW, RO, WO)) for _ in range(d.rng(1, 2))]
+        vs = [G.g_var(d, max_buf=5, callbacks=False, access=(RO, RW, RO, WO), sizes_num=G.SIZES_X) for _ in range(d.rng(1, 2))]
         vs[0]["access"] = d.pick([RO, RW])
         return S.mk_cmd(nm, "", vs)
     if sort == "failing":
@@ -60,7 +60,7 @@ def gen_history(d, qcap, flags, lines=True, holds=True, long_history=True, line_
     if lines:
         for j in range(d.rng(1, 2)):
             h = "".join(k for k in "wrn" if d.chance(2, 3)) or "n"
-            c = S.mk_cmd([b"+W", b"+RUN"][j], h, [G.g_var(d, max_buf=4, callbacks=False)] if d.below(2) else [])
+            c = S.mk_cmd([b"+W", b"+RUN"][j], h, [G.g_var(d, max_buf=4, callbacks=False, sizes_num=G.SIZES_X)] if d.below(2) else [])
             codes = [OK, DATA_OK, DATA_NEXT, NEXT, ERR] + ([HOLD, HOLD] if holds else [])
             for k in h:
                 if d.below(2):
@@ -75,16 +75,21 @@ def gen_history(d, qcap, flags, lines=True, holds=True, long_history=True, line_
     actions = []
     step = 0
     nops = d.rng(4, 60) if long_history else d.rng(2, 14)
+    def target():
+        # mostly the event commands; now and then a command that lines use too (the one a hold belongs to included)
+        if lcs and d.unlikely(1, 6):
+            return nev + d.below(len(lcs))
+        return d.below(nev)
     for _ in range(nops):
         step += d.pick([0, 0, 0, 1, 1, 2, 3, 5, 9, 20, 60, 150])
         k = d.weighted([(8, "trig"), (2, "full"), (2, "buf"), (1, "proc"), (2, "burst")])
         if k == "trig":
-            actions.append([S.AT_STEP, step, S.WA_TRIG, d.below(nev), d.pick([0, 1, 0, 1, 2, 3]), None])
+            actions.append([S.AT_STEP, step, S.WA_TRIG, target(), d.pick([0, 1, 0, 1, 2, 3]), None])
         elif k == "burst":
             for _ in range(d.rng(2, qcap + 2)):
                 if d.below(4) == 0:
                     actions.append([S.AT_STEP, step, S.WA_ISFULL, 0, 0, None])
-                actions.append([S.AT_STEP, step, S.WA_TRIG, d.below(nev), d.pick([0, 1]), None])
+                actions.append([S.AT_STEP, step, S.WA_TRIG, target(), d.pick([0, 1]), None])
         elif k == "full":
             actions.append([S.AT_STEP, step, S.WA_ISFULL, 0, 0, None])
             if d.below(2):
@@ -105,6 +110,13 @@ def gen_history(d, qcap, flags, lines=True, holds=True, long_history=True, line_
         # every possible hold is released eventually
         for k in range(1, 8):
             actions.append([S.AT_STALL, k, S.WA_HOLDEXIT, d.below(2), 0, None])
+        if d.unlikely(1, 6):
+            # the input ends inside a line (no LF ever comes) and, once everything else has settled, an event is raised -
+            # now and then for the very command that line names: events do not wait for the line to be completed
+            j = d.below(len(lcs))
+            c = lcs[j]
+            inp += b"AT" + c["name"] + d.pick([b"", b"=", b"=1", b"=12,", b"?", b"=\"ab"])
+            actions.append([S.AT_LINE, inp.count(b"\n"), S.WA_TRIG, (nev + j) if d.chance(2, 3) else d.below(nev), d.below(2), None])
     uc = d.pick([8, 10, 12, 16, 24, 32, 48])
     shared = d.below(2) == 0
     cc = max(24, uc) if shared else 32
@@ -262,13 +274,18 @@ def judge_queue(s, t, check_outputs=True, check_ok_idle=False):
         try:
             for ci, typ in order:
                 p = m.event(ci, typ, b"\n")
-                exp_units += [bytes(u) for u in p.units]
+                exp_units += [bytes(u) for u in p.units if bytes(u).startswith(b"#")]   # (texts of commands that lines use too are not attributed)
                 exp_h += [(c[2], c[3], c[4], c[6]) for c in p.cbs if c[0] == "H"]
         except ref.Unknown:
             return v
         units, rest = split_units(t.out)
         got_units = [u[1] for u in units if u[1].startswith(b"#")]
         got_h = [(h.ci, h.kind, h.seen, h.code) for h in t.handlers if h.fsm == "u"]
+        # an event on a command that lines write to prints the current value, which this model does not track (the text, and
+        # with it whether the text fits and the handler runs at all): only the queue bookkeeping above is judged for those
+        shared_cmd = lambda ci: not cs[ci]["name"].startswith(b"#")
+        exp_h = [x for x in exp_h if not shared_cmd(x[0])]
+        got_h = [x for x in got_h if not shared_cmd(x[0])]
         if got_h != exp_h:
             v.violation = ("event-handlers", "handler invocations for the accepted events %r: expected %r, observed %r" % (order, exp_h, got_h))
             return v
